@@ -201,11 +201,16 @@ def emit_pass(run, r, prop, log):
             if c is None or c.verdict != 'ACCEPT' or c.codetext is None:
                 continue
             diffs = E.compare(c.codetext, r['caps'][i])
+            # the is_prefix guard only matters to partial lexing: it is judged under C07, everything else under C01
+            if prop == 'C07':
+                diffs = [d for d in diffs if 'is_prefix guard' in d.get('what', '')]
+            else:
+                diffs = [d for d in diffs if 'is_prefix guard' not in d.get('what', '')]
             if diffs:
                 res['differences'] += 1
                 targets[i] = [(d.get('state'), d.get('byte')) for d in diffs if d.get('state') is not None]
                 found = set()
-                if name == 'tail-call':
+                if name == 'tail-call' and prop != 'C07':
                     found = cert_fail_search(run, r, prop, [i], log, targets=targets, why='search around the (state, byte) where the emitted code departs from the graph')
                 if i not in found:
                     run.violation('emitted-code', dict(definition=r['srcs'][i], origin=r['corpus'][i].origin, generator=name, differences=diffs[:5],
@@ -903,6 +908,7 @@ def check_c07(tier, seed, log=print):
     nt, dis, bad_defs = tie_pass(run, r, modes=('p',))
     report_tie(run, r, bad_defs, covered=fails)
     run.coverage['partial_certificates'] = certp
+    run.coverage['emitted_prefix_guard_vs_graph'] = emit_pass(run, r, 'C07', log)
     run.coverage.update(dict(evaluations=n, distinct_nontrivial=len(nontriv),
                              rule='for sampled inputs S of every accepted definition and every split point k: Lexer::new_partial over S[..k] vs the one-shot lexing of S by the same compiled lexer '
                                   '(leading run, empty span at None, position between committed end and next start), and vs the Lean reference partial lexer specLexP for look-free definitions; non-trivial = at least one item committed before a proper split',
